@@ -189,8 +189,10 @@ func (a *kAggregate) aggregate(t int64, result *[]model.StepVector, k int, Sampl
 		}
 	}
 
+	// All groups of a step go into one step vector: operators pair the
+	// vectors of their inputs by position.
+	s := a.vectorPool.GetStepVector(t)
 	for _, h := range a.heaps {
-		s := a.vectorPool.GetStepVector(t)
 		// The heap keeps the lowest value on top, so reverse it.
 		if len(h.entries) > 1 {
 			sort.Sort(sort.Reverse(h))
@@ -200,9 +202,9 @@ func (a *kAggregate) aggregate(t int64, result *[]model.StepVector, k int, Sampl
 			s.SampleIDs = append(s.SampleIDs, e.sId)
 			s.Samples = append(s.Samples, e.total)
 		}
-		*result = append(*result, s)
 		h.entries = h.entries[:0]
 	}
+	*result = append(*result, s)
 }
 
 type entry struct {
